@@ -3,6 +3,7 @@
 // independence against a sequential reference), C04 (conservation), selected
 // by VERIF_PROPERTY.
 #include "rhd_model.hpp"
+#include "ion_model.hpp"
 
 #include "CommandLineParser.hpp"
 #include "TaskBasedRadiationHydrodynamicsSimulation.hpp"
@@ -31,6 +32,12 @@ const char *C09_CLASSES[] = {"restart-divergence", "dump-differs",
                              "stop-not-honoured", nullptr};
 const char *C12_CLASSES[] = {"crash", "abort", "sanitizer", "hang", "bad-exit",
                              "missing-output", nullptr};
+const char *C01_CLASSES[] = {"launch-count", "not-all-terminated", "done-count",
+                             "leftover", "terminated-twice", "unknown-packet",
+                             "packet-duplicated", "packet-after-termination",
+                             "termination-cause", "task-nesting", "launch",
+                             "buffer-overflow", "nontermination",
+                             "packet-never-ends", nullptr};
 const char *C04_CLASSES[] = {"mass-not-conserved", "momentum-not-conserved",
                              "energy-not-conserved", "unphysical-state",
                              nullptr};
@@ -148,6 +155,29 @@ void dump_diff(const std::string &a, const std::string &b, size_t &first,
       any = true;
     }
 }
+
+// hydro events go to the RHD ledger, packet / photon task / iteration events
+// to the packet ledger (C01 on the radiation step of the RHD driver)
+class BothLedgers : public Listener {
+public:
+  rhd::Ledger &H;
+  ion::LedgerT< HydroDensitySubGrid > &I;
+  BothLedgers(rhd::Ledger &h, ion::LedgerT< HydroDensitySubGrid > &i)
+      : H(h), I(i) {}
+  virtual void on_event(int kind, const void *a, const void *b, long x,
+                        long y) {
+    switch (kind) {
+    case CMI_VERIF_EVENT_HYDRO_STEP_BEGIN:
+    case CMI_VERIF_EVENT_HYDRO_STEP_END:
+    case CMI_VERIF_EVENT_HYDRO_TASK_BEGIN:
+    case CMI_VERIF_EVENT_HYDRO_TASK_END:
+      H.on_event(kind, a, b, x, y);
+      break;
+    default:
+      I.on_event(kind, a, b, x, y);
+    }
+  }
+};
 
 class ERhdEngine : public Engine {
 public:
@@ -290,6 +320,14 @@ public:
         }
       }
     }
+    if (prop == "C01") {
+      // the radiation step of the RHD driver (a copy of the photon loop)
+      c.radiation = true;
+      static const long pk[] = {1, 13, 27, 100, 333, 999, 1300};
+      c.packets = pk[r.below(7)];
+      c.steps = (int)r.range(1, 3);
+      c.threads = std::min(c.threads, 8);
+    }
     if (prop == "C12") {
       // widen over optional components and run modes
       c.radiation = r.chance(0.4);
@@ -326,7 +364,24 @@ public:
     L.lay.init(c);
     L.want_reference = (prop == "C10");
     L.want_conservation = (prop == "C04");
-    run_begin(c.sched, &L);
+    ion::LedgerT< HydroDensitySubGrid > IL;
+    {
+      ion::Cfg ic;
+      for (int k = 0; k < 3; ++k) {
+        ic.ncell[k] = c.ncell[k];
+        ic.nsub[k] = c.nsub[k];
+        ic.periodic[k] = c.periodic(k);
+        ic.anchor[k] = c.anchor[k];
+        ic.sides[k] = c.sides[k];
+      }
+      ic.seed = c.seed;
+      ic.packets = c.packets;
+      ic.threads = c.threads;
+      IL.lay.init(ic);
+      IL.record_segments = false;
+    }
+    BothLedgers both(L, IL);
+    run_begin(c.sched, prop == "C01" ? (Listener *)&both : (Listener *)&L);
     int rc = -1;
     bool finished = guarded([&]() {
       std::vector< std::string > extra;
@@ -351,7 +406,11 @@ public:
     RunStats rs = run_end();
 
     std::string vclass, message;
-    if (L.failed) {
+    if (prop == "C01" && IL.failed) {
+      vclass = IL.violation.vclass;
+      message = "radiation step of hydro step " + std::to_string(L.step + 1) +
+                ": " + IL.violation.message;
+    } else if (L.failed) {
       vclass = L.violation.vclass;
       message = L.violation.message;
     } else if (!finished && rs.inconclusive) {
@@ -374,7 +433,8 @@ public:
                      L.history.size(), c.steps);
     }
     if (!vclass.empty()) {
-      const char **mine = prop == "C10"   ? C10_CLASSES
+      const char **mine = prop == "C01"   ? C01_CLASSES
+                          : prop == "C10" ? C10_CLASSES
                           : prop == "C04" ? C04_CLASSES
                           : prop == "C09" ? C09_CLASSES
                           : prop == "C12" ? C12_CLASSES
@@ -405,6 +465,11 @@ public:
     }
     for (auto &kv : rs.probes)
       st["probe_" + kv.first] = (long long)kv.second;
+    if (prop == "C01") {
+      for (auto &kv : IL.stats)
+        st["rad_" + kv.first] = kv.second;
+      st["rad_packets_terminated"] = (long long)IL.done_total;
+    }
     st[sfmt("policy_%d", c.sched.policy)] = 1;
     st[sfmt("threads_%02d", c.threads)] = 1;
     int nper = 0, single_periodic = 0;
@@ -495,6 +560,15 @@ public:
              "state (fixed time step); tolerance 1e-11 of the local scale "
              "(largest magnitude over the cell and its six neighbours, at "
              "least 1e-3 of the grid maximum)";
+    else if (prop == "C01")
+      what = "RHD part of C01: runs with the radiation step switched on (1-3 "
+             "hydro steps x 2 photoionization iterations, Verner atomic data); "
+             "the packet ledger of C01 is attached to the copy of the photon "
+             "loop inside the RHD driver (hook H6b): launched == requested == "
+             "terminated exactly once, the code's own counter, packet/task "
+             "ownership, no buffer / queue entry / outgoing buffer left, task "
+             "slots in use == persistent hydro tasks + temperature tasks of "
+             "earlier iterations";
     else if (prop == "C12")
       what = "sanitizer part of C12 (task-based RHD mode): runs built with "
              "AddressSanitizer + UndefinedBehaviorSanitizer, widened over "
